@@ -44,8 +44,12 @@ Definition script_step : registry script := fun sc o =>
 
 Inductive case :=
   (* a history through a wrapper: per operation the result the caller saw and the backend
-     calls made during it with the backend's answers *)
-  | CHist (p : policy) (hist : list op) (obs : list (result * list (op * result)))
+     calls made during it with the backend's answers. ctx_done: every call of the history
+     was made with a context that is already cancelled. Neither the model nor the
+     specification looks at it: the property makes the outcome a matter of the policy and
+     of the wrapped registry alone (the recording backend answers a cancelled context like
+     any other), so a wrapper that answers a cancelled context itself disagrees with both *)
+  | CHist (ctx_done : bool) (p : policy) (hist : list op) (obs : list (result * list (op * result)))
   (* Repositories yield by yield: the backend's raw yields, the index of the yield at which
      the consumer says stop, the yields the consumer received, the number of backend yields
      that were delivered *)
@@ -77,7 +81,7 @@ Definition obs_eqb : result * list op -> result * list op -> bool :=
 
 Definition model_agrees (c : case) : bool :=
   match c with
-  | CHist p hist obs =>
+  | CHist _ p hist obs =>
       list_eqb obs_eqb (map (fun x => (fst x, map fst (snd x))) obs)
                (snd (trun (model_step p) (concat (map snd obs)) hist))
   | CSeq p start evs stop ys delivered =>
@@ -187,7 +191,7 @@ Definition owed (p : policy) (evs : list yld) : list yld :=
 
 Definition obs_ok (c : case) : bool :=
   match c with
-  | CHist p hist obs => spec_hist p hist obs
+  | CHist _ p hist obs => spec_hist p hist obs
   | CSeq p start evs stop ys delivered =>
       list_eqb yld_eqb ys
         match stop with
@@ -214,7 +218,7 @@ Definition policy_mixed (p : policy) : bool :=
 
 Definition nontrivial (c : case) : bool :=
   match c with
-  | CHist p hist obs => policy_mixed p && existsb (fun o => match op_repos o with [] => false | _ => true end) hist
+  | CHist _ p hist obs => policy_mixed p && existsb (fun o => match op_repos o with [] => false | _ => true end) hist
   | CSeq p start evs stop ys delivered =>
       existsb (fun y => match snd y with None => negb (listable p (fst y)) | Some _ => true end) evs
   | CPromoted _ _ _ _ _ => true
@@ -385,7 +389,7 @@ Qed.
 
 Lemma corr_sound c : model_agrees c = true -> obs_ok c = true.
 Proof.
-  destruct c as [p hist obs | p start evs stop ys delivered | p m en r ncalls]; cbn [model_agrees obs_ok].
+  destruct c as [cd p hist obs | p start evs stop ys delivered | p m en r ncalls]; cbn [model_agrees obs_ok].
   - apply spec_hist_sound.
   - destruct (repos_drive (model_keep p) (stop_fn stop) 0 evs) as [ys' n] eqn:E.
     intros H. apply andb_true_iff in H as [H _].
